@@ -4,6 +4,7 @@ package main
 
 import (
 	"bytes"
+	"crypto/sha256"
 	"encoding/json"
 	"errors"
 	"fmt"
@@ -40,6 +41,11 @@ type c11File struct {
 	// the others go through runtime.NamedReader(Name, inner) or hand over an *os.File
 	Src   string `json:"src,omitempty"`
 	Inner Bs     `json:"inner,omitempty"` // the name the wrapped reader has of its own (named-own, renamed)
+	// a big upload, described instead of spelled out: BigLen bytes derived from BigSeed (c11BigBytes), delivered in Reads of
+	// BigChunk bytes (0 = one Read); Chunks is then left empty in the stored input and filled in by c11Expand
+	BigLen   int `json:"big_len,omitempty"`
+	BigSeed  int `json:"big_seed,omitempty"`
+	BigChunk int `json:"big_chunk,omitempty"`
 }
 
 type c11Field struct {
@@ -64,6 +70,9 @@ type c11In struct {
 	SeekTo  bool           `json:"seek_to,omitempty"` // ... or skipped with Seek(len(Consumed), SeekStart) when the reader can seek
 	RType   string         `json:"rtype,omitempty"`   // dynamic type of a reader / readcloser payload (c11ReaderTypes, c11ReadCloserTypes); "" = a type with Read (and Close) only
 	Content Bs             `json:"content,omitempty"`
+	// a big payload, described instead of spelled out: Content = c11BigBytes(BigLen, BigSeed) (filled in by c11Expand)
+	BigLen  int            `json:"big_len,omitempty"`
+	BigSeed int            `json:"big_seed,omitempty"`
 	Form    []c11Field     `json:"form,omitempty"`
 	Files   []c11FileField `json:"files,omitempty"`
 	Auth    int            `json:"auth"` // -1: no auth writer; k >= 0: an auth writer calling GetBody k times
@@ -126,7 +135,7 @@ func (c11) CoqModule() string { return "Check_C11" }
 func (c11) Rule() string {
 	return "requests built by the real Runtime.CreateHttpRequest: payload kinds nil/value (real JSON, text, XML, byte-stream producers and tagging/failing/unregistered ones)/io.Reader/io.ReadCloser, " +
 		"form fields only, files only, both, with 0-3 values and files per field; media types incl. the two form types, case variants and unregistered ones; " +
-		"file names with quotes, backslashes, directories; file contents of lengths 0,1,511,512,513,4096,70000 and random, text and binary signatures, delivered whole or in short reads, declared or sniffed type; " +
+		"file names with quotes, backslashes, directories; file contents of lengths 0,1,511,512,513,4096,70000 and random, uploads and streamed reader payloads of 128 KiB to 8 MiB (at, just below and just above 1 MiB and the other powers of two; in Reads of 1000 bytes to 1 MiB; with the auth writer absent, not asking, asking once or twice; such contents are described by length and seed in the input and stand in the Coq terms as fingerprints: length and SHA-256), text and binary signatures, delivered whole or in short reads, declared or sniffed type; " +
 		"auth writer absent or calling GetBody 0,1,2,3 times; value payloads of 18 dynamic types (string, []byte, named/pointer variants, map, struct, slice, numbers, bool, typed nil pointer, json.RawMessage, marshalers) under every producer; " +
 		"reader payloads of 20 dynamic types, fresh or handed over after a prefix was read or seeked past; uploads made from an own type, through runtime.NamedReader (over plain, named, renamed readers, *os.File) or an *os.File itself. The outgoing request is read back with mime/multipart and url.ParseQuery. " +
 		"Non-trivial: a request that was built without error and carries a body."
@@ -150,12 +159,92 @@ func c11In1(s string, set []string) bool {
 	return false
 }
 
+// ---------- big bodies ----------
+// Bodies of several MiB are part of the input space (an upload, a streamed payload); anything the client buffers, limits or
+// splits by size shows only there. They are kept out of the stored inputs (described by length and seed) and out of the Coq
+// terms: every byte string of a case that is longer than c11BigThreshold - payload content, file content, the producer's
+// output, the bytes sent, a part's data, a GetBody answer - is replaced, consistently on the input and on the observed side,
+// by its fingerprint (a tag, the length, the SHA-256). The model never looks into a content (it moves it around whole; the
+// sniffing oracle is keyed by the fingerprint for such a file), so it runs on fingerprints as it runs on contents.
+const c11BigThreshold = 100000
+const c11BigMax = 80 << 20
+
+func c11BigBytes(n, seed int) []byte {
+	b := make([]byte, n)
+	rr := rand.New(rand.NewSource(int64(seed)*7919 + int64(n)))
+	_, _ = rr.Read(b)
+	sig := c11Signatures[(seed%len(c11Signatures)+len(c11Signatures))%len(c11Signatures)]
+	copy(b, sig)
+	return b
+}
+
+func c11FP(s string) string {
+	if len(s) <= c11BigThreshold {
+		return s
+	}
+	h := sha256.Sum256([]byte(s))
+	return fmt.Sprintf("\x00big:%d:", len(s)) + string(h[:])
+}
+
+func c11IsBig(in c11In) bool {
+	if in.BigLen > 0 {
+		return true
+	}
+	for _, ff := range in.Files {
+		for _, f := range ff.Files {
+			if f.BigLen > 0 {
+				return true
+			}
+		}
+	}
+	return false
+}
+
+// c11Expand spells the described contents out (on a copy: the stored input stays small)
+func c11Expand(in c11In) c11In {
+	if !c11IsBig(in) {
+		return in
+	}
+	if in.BigLen > 0 {
+		in.Content = Bs(c11BigBytes(in.BigLen, in.BigSeed))
+	}
+	files := make([]c11FileField, len(in.Files))
+	for i, ff := range in.Files {
+		files[i] = c11FileField{Name: ff.Name, Files: append([]c11File(nil), ff.Files...)}
+		for j := range files[i].Files {
+			f := &files[i].Files[j]
+			if f.BigLen <= 0 {
+				continue
+			}
+			b := c11BigBytes(f.BigLen, f.BigSeed)
+			f.Chunks = nil
+			step := f.BigChunk
+			if step <= 0 {
+				step = len(b)
+			}
+			for len(b) > 0 {
+				k := c11Min(step, len(b))
+				f.Chunks = append(f.Chunks, Bs(b[:k]))
+				b = b[k:]
+			}
+		}
+	}
+	in.Files = files
+	return in
+}
+
 // c11Norm drops the fields that have no meaning for the chosen kinds, so that the category of a case tells the truth
 func c11Norm(in c11In) c11In {
 	if in.Payload != "value" || !c11In1(in.VType, c11ValueTypes) {
 		in.VType = ""
 	}
 	stream := in.Payload == "reader" || in.Payload == "readcloser"
+	if in.BigLen < 0 || in.BigLen > c11BigMax || in.Payload == "nil" || in.Payload == "" {
+		in.BigLen = 0
+	}
+	if in.BigLen > 0 { // a described content stands at offset 0
+		in.Content, in.Consumed, in.SeekTo = "", "", false
+	}
 	if !stream {
 		in.Consumed, in.SeekTo, in.RType = "", false, ""
 	}
@@ -171,6 +260,15 @@ func c11Norm(in c11In) c11In {
 	for i := range in.Files {
 		for j := range in.Files[i].Files {
 			f := &in.Files[i].Files[j]
+			if f.BigLen < 0 || f.BigLen > c11BigMax {
+				f.BigLen = 0
+			}
+			if f.BigLen > 0 {
+				f.Chunks = nil
+				if f.BigChunk < 0 || (f.BigChunk > 0 && f.BigLen/f.BigChunk > 20000) {
+					f.BigChunk = 0
+				}
+			}
 			if !c11In1(f.Src, c11FileSources) {
 				f.Src = ""
 			}
@@ -532,7 +630,7 @@ func c11Content(f c11File) string {
 }
 
 func (c11) Run(inAny any) any {
-	in := inAny.(c11In)
+	in := c11Expand(inAny.(c11In))
 	var obs c11Obs
 	if in.Kind == "escape" {
 		obs.Panicked, obs.Panic = recoverTo(func() {
@@ -813,7 +911,7 @@ func c11WireOrder(in c11In, parts []c11Part) ([]c11Field, []c11FileField) {
 // what a reader payload holds and how far the caller had read it
 func c11Unread(in c11In) string {
 	if len(in.Consumed) == 0 {
-		return coqBytes(string(in.Content))
+		return coqBytes(c11FP(string(in.Content)))
 	}
 	return fmt.Sprintf("(reader_at %s %s)", coqBytes(string(in.Consumed)+string(in.Content)), coqNat(len(in.Consumed)))
 }
@@ -844,7 +942,7 @@ func c11OptBs(b *Bs) string {
 }
 
 func (c11) Coq(inAny any, obsAny any) string {
-	in, obs := inAny.(c11In), obsAny.(c11Obs)
+	in, obs := c11Expand(inAny.(c11In)), obsAny.(c11Obs)
 	if in.Kind == "escape" {
 		return fmt.Sprintf("CEscape %s %s %s", coqBytes(string(in.S)), coqBytes(string(obs.Escaped)), coqBytes(string(obs.Base)))
 	}
@@ -873,18 +971,31 @@ func (c11) Coq(inAny any, obsAny any) string {
 		return coqPair(coqBytes(string(ff.Name)), coqList(ff.Files, func(f c11File) string {
 			j++
 			name := c11SourceTerm(f, obs.OSNames[fmt.Sprintf("%s/%d", string(ff.Name), j)])
-			return fmt.Sprintf("(mkfile %s %s %s)", name, coqBytesList(bsList(f.Chunks)), c11OptBs(f.Declared))
+			chunks := bsList(f.Chunks)
+			if c := c11Content(f); len(c) > c11BigThreshold { // one fingerprint for the content, however it was chunked
+				chunks = []string{c11FP(c)}
+			}
+			return fmt.Sprintf("(mkfile %s %s %s)", name, coqBytesList(chunks), c11OptBs(f.Declared))
 		}))
 	})
 	prod := "None"
 	if obs.ProdReg {
 		if obs.ProdOK {
-			prod = "(Some (Some " + coqBytes(string(obs.ProdOut)) + "))"
+			prod = "(Some (Some " + coqBytes(c11FP(string(obs.ProdOut))) + "))"
 		} else {
 			prod = "(Some None)"
 		}
 	}
 	bin := fmt.Sprintf("(mkbin %s %s %s %s %s %s %s)", coqBytes(string(in.Media)), c11OptBs(in.Preset), payload, formT, filesT, prod, coqBytes(string(obs.Boundary)))
+	// the sniffing oracle for a big file: keyed by the fingerprint that stands for its content, answering what the real
+	// function says about the content's first 512 bytes
+	for _, ff := range in.Files {
+		for _, f := range ff.Files {
+			if c := c11Content(f); f.Declared == nil && len(c) > c11BigThreshold {
+				obs.Sniff = append(obs.Sniff, [2]Bs{Bs(c11FP(c)), Bs(http.DetectContentType([]byte(c[:512])))})
+			}
+		}
+	}
 	tab := coqList(obs.Sniff, func(e [2]Bs) string { return coqPair(coqBytes(string(e[0])), coqBytes(string(e[1]))) })
 	auth := "None"
 	if in.Auth >= 0 {
@@ -894,7 +1005,7 @@ func (c11) Coq(inAny any, obsAny any) string {
 	if obs.HasParts {
 		parts = "(Some " + coqList(obs.Parts, func(p c11Part) string {
 			return fmt.Sprintf("(mkw %s %s %s %s %s)", coqBytes(string(p.Disp)), coqBytes(string(p.Name)),
-				coqOpt(p.HasFilename, coqBytes(string(p.Filename))), coqOpt(p.HasCT, coqBytes(string(p.CT))), coqBytes(string(p.Data)))
+				coqOpt(p.HasFilename, coqBytes(string(p.Filename))), coqOpt(p.HasCT, coqBytes(string(p.CT))), coqBytes(c11FP(string(p.Data))))
 		}) + ")"
 	}
 	query := "None"
@@ -909,11 +1020,11 @@ func (c11) Coq(inAny any, obsAny any) string {
 		if string(a) == string(obs.Sent) {
 			return "None"
 		}
-		return "(Some " + coqBytes(string(a)) + ")"
+		return "(Some " + coqBytes(c11FP(string(a))) + ")"
 	})
 	o := fmt.Sprintf("(mkobs %s %d %s %s %s %s %s %s %s)", coqBool(obs.Panicked), obs.Err,
 		coqOpt(obs.HasCT, coqBytes(string(obs.CT))), coqOpt(obs.HasMedia, coqBytes(string(obs.CTMedia))),
-		coqBool(obs.SentOK), coqBytes(sent), parts, query, answers)
+		coqBool(obs.SentOK), coqBytes(c11FP(sent)), parts, query, answers)
 	return fmt.Sprintf("CBody %s %s %s %s %s", bin, tab, coqBool(obs.Registered), auth, o)
 }
 
@@ -952,6 +1063,28 @@ func (c11) Category(inAny any, obsAny any) (string, bool) {
 	in, obs := inAny.(c11In), obsAny.(c11Obs)
 	if in.Kind == "escape" {
 		return "escape", strings.ContainsAny(string(in.S), "\"\\/")
+	}
+	bigTag := ""
+	if c11IsBig(in) {
+		n := in.BigLen
+		for _, ff := range in.Files {
+			for _, f := range ff.Files {
+				if f.BigLen > n {
+					n = f.BigLen
+				}
+			}
+		}
+		switch {
+		case n < 1<<20-4096:
+			bigTag = "/big<1MiB"
+		case n <= 1<<20+4096:
+			bigTag = "/big~1MiB"
+		case n <= 4<<20:
+			bigTag = "/big<=4MiB"
+		default:
+			bigTag = "/big>4MiB"
+		}
+		in = c11Expand(in)
 	}
 	auth := "noauth"
 	switch {
@@ -1025,7 +1158,7 @@ func (c11) Category(inAny any, obsAny any) (string, bool) {
 			kind += "+payload"
 		}
 	}
-	return kind + "/" + auth + "/" + outcome, outcome == "ok" && obs.SentLen > 0
+	return kind + bigTag + "/" + auth + "/" + outcome, outcome == "ok" && obs.SentLen > 0
 }
 
 // ---------- generator ----------
@@ -1164,6 +1297,14 @@ func c11GenFile(r *rand.Rand, big bool) c11File {
 	return f
 }
 
+// c11BigLen: a length between 100 kB and 5 MiB, half of them next to a power of two
+func c11BigLen(r *rand.Rand) int {
+	if r.Intn(2) == 0 {
+		return (128<<10)<<r.Intn(6) + r.Intn(5) - 2
+	}
+	return c11BigThreshold + 1 + r.Intn(5<<20)
+}
+
 func c11GenForm(r *rand.Rand) []c11Field {
 	var out []c11Field
 	for j := r.Intn(4); j > 0; j-- {
@@ -1209,7 +1350,13 @@ func (c11) Gen(r *rand.Rand, tier string, i int) any {
 				in.VType = c11ValueTypes[r.Intn(len(c11ValueTypes))]
 			}
 		}
-		if in.Payload != "value" && r.Intn(3) == 0 { // the caller had read a prefix (or seeked past it)
+		if (in.Payload == "reader" || in.Payload == "readcloser") && r.Intn(25) == 0 { // a body of up to 5 MiB
+			in.Content, in.BigLen, in.BigSeed = "", c11BigLen(r), r.Intn(1000)
+			if in.Auth < 0 && r.Intn(2) == 0 {
+				in.Auth = 1 + r.Intn(2)
+			}
+		}
+		if in.Payload != "value" && in.BigLen == 0 && r.Intn(3) == 0 { // the caller had read a prefix (or seeked past it)
 			in.Consumed = Bs(c11Bytes(r, []int{1, 4, 4, 16, 100, 600}[r.Intn(6)], r.Intn(2) == 0))
 			in.SeekTo = r.Intn(2) == 0
 		}
@@ -1230,8 +1377,69 @@ func (c11) Gen(r *rand.Rand, tier string, i int) any {
 		if big && in.Auth > 1 {
 			in.Auth = 1
 		}
+		if r.Intn(30) == 0 && len(in.Files) > 0 && len(in.Files[0].Files) > 0 { // an upload of up to 5 MiB
+			f := &in.Files[0].Files[r.Intn(len(in.Files[0].Files))]
+			f.Chunks, f.BigLen, f.BigSeed = nil, c11BigLen(r), r.Intn(1000)
+			f.BigChunk = []int{0, 1000, 4096, 32 << 10, 64<<10 + 1, 1 << 20}[r.Intn(6)]
+			if in.Auth < 0 && r.Intn(2) == 0 {
+				in.Auth = 1 + r.Intn(2)
+			}
+		}
 	}
 	return c11Norm(in)
+}
+
+// c11BigSizes: lengths around the powers of two a buffer limit is likely to be (128 KiB, 256 KiB, 1 MiB, 4 MiB, 8 MiB) and between
+var c11BigSizes = []int{128<<10 + 1, 256<<10 + 1, 1<<20 - 1, 1 << 20, 1<<20 + 1, 3<<20 + 17, 4<<20 + 1, 8<<20 + 1}
+
+// c11EnumBig: streamed bodies of several MiB (reader payloads of the main dynamic types, multipart documents with a big upload)
+// x the auth writer absent / not asking / asking once / asking twice. What GetBody hands to the auth writer must be what is sent
+// at every size; so must the sniffed type, the part's data and the caller's content.
+func c11EnumBig(tier string) []any {
+	var out []any
+	sizes := c11BigSizes
+	if tier == "thorough" {
+		sizes = append(append([]int{}, sizes...), 32<<20+1, 33<<20)
+	}
+	auths := []int{-1, 0, 1, 2}
+	kinds := []struct{ pl, rt string }{{"reader", ""}, {"readcloser", ""}, {"reader", "bytes.Buffer"}, {"readcloser", "os.File"},
+		{"reader", "writerto"}, {"readcloser", "nopcloser-buffer"}, {"reader", "bufio.Reader"}}
+	for ki, k := range kinds {
+		for si, n := range sizes {
+			for _, auth := range auths {
+				if ki >= 2 && n > 4<<20 && auth != 2 { // the biggest ones: all auth variants only for the two plain kinds
+					continue
+				}
+				out = append(out, c11Norm(c11In{Kind: "body", Method: []string{"POST", "PUT"}[si%2], Media: "application/octet-stream",
+					Payload: k.pl, RType: k.rt, BigLen: n, BigSeed: ki*100 + si, Auth: auth}))
+			}
+		}
+	}
+	// multipart documents: the document is a little longer than the upload, so lengths just below a limit matter as well
+	png := Bs("image/png")
+	for si, n := range []int{128<<10 + 1, 1<<20 - 2000, 1<<20 - 300, 1 << 20, 1<<20 + 1, 3<<20 + 17, 8<<20 + 1} {
+		for _, auth := range auths {
+			one := c11File{Name: "dir/big.bin", BigLen: n, BigSeed: si, BigChunk: 32 << 10}
+			out = append(out, c11Norm(c11In{Kind: "body", Method: "POST", Media: "multipart/form-data", Payload: "nil", Auth: auth,
+				Files: []c11FileField{{Name: "file", Files: []c11File{one}}}}))
+			if n > 4<<20 {
+				continue
+			}
+			two := c11File{Name: "big.png", BigLen: n, BigSeed: si + 3, BigChunk: 0, Declared: &png}
+			out = append(out, c11Norm(c11In{Kind: "body", Method: "POST", Media: "multipart/form-data", Payload: "nil", Auth: auth,
+				Form:  []c11Field{{Name: "note", Values: []Bs{"v 1", "v2"}}},
+				Files: []c11FileField{{Name: "up", Files: []c11File{{Name: "small.txt", Chunks: []Bs{"plain text"}}, two}}}}))
+			three := c11File{Name: "named.dat", BigLen: n, BigSeed: si + 5, BigChunk: 4096 + 1, Src: "named"}
+			out = append(out, c11Norm(c11In{Kind: "body", Method: "PUT", Media: "application/json", Payload: "reader", Content: "ignored payload", Auth: auth,
+				Files: []c11FileField{{Name: "a", Files: []c11File{three}}, {Name: "b", Files: []c11File{{Name: "tail.txt", Chunks: []Bs{"t", "ail"}}}}}}))
+		}
+	}
+	// a big value payload goes through the producer into the request's own buffer: no streaming, the same answers
+	for _, auth := range []int{-1, 2} {
+		out = append(out, c11Norm(c11In{Kind: "body", Method: "POST", Media: "text/plain", Payload: "value", BigLen: 1<<20 + 1, BigSeed: 2, Auth: auth}))
+		out = append(out, c11Norm(c11In{Kind: "body", Method: "POST", Media: "application/octet-stream", Payload: "value", VType: "bytes", BigLen: 2<<20 + 5, BigSeed: 3, Auth: auth}))
+	}
+	return out
 }
 
 func (c11) Enumerate(tier string) []any {
@@ -1348,6 +1556,7 @@ func (c11) Enumerate(tier string) []any {
 			}
 		}
 	}
+	out = append(out, c11EnumBig(tier)...)
 	// escapeQuotes / filepath.Base on every single byte and on byte pairs with the special ones
 	for c := 0; c < 256; c++ {
 		out = append(out, c11In{Kind: "escape", S: Bs([]byte{byte(c)}), Auth: -1})
